@@ -91,6 +91,11 @@ func TestVerifC01GRPCCodesTable(t *testing.T) {
 			ran := false
 			err := brk.DoWithAcceptable(func() error { ran = true; return c01CodeErr(c, i) }, Acceptable)
 			m.Count("calls_failing", 1)
+			if ran && err == breaker.ErrServiceUnavailable {
+				m.Violate("C01:reject:req-ran", desc, "call #%d ran the protected function and still returned ErrServiceUnavailable", i)
+				bad = true
+				break
+			}
 			if !ran {
 				rej++
 				if first < 0 {
